@@ -100,7 +100,7 @@ func machineJob(l *Loaded, cfg Config, sk Skeleton, budgetK int) *Job {
 	return &Job{Pkg: "verifm", Fn: "VerifMachine", Key: cfg.String() + "|" + sk.ID,
 		Params: map[string]string{"variant": cfg.Variant, "eu": strconv.Itoa(cfg.EU), "wu": strconv.Itoa(cfg.WU), "width": strconv.Itoa(cfg.Width()),
 			"mem": strconv.Itoa(sk.Mem), "prog": prog, "init": sk.Init, "budgetk": strconv.Itoa(budgetK), "maxsteps": strconv.Itoa(sk.MaxSteps),
-			"skipregs": sk.SkipRegs, "symmem": sk.SymMem},
+			"skipregs": sk.SkipRegs, "symmem": sk.SymMem, "c06": "0"},
 		Covers: []string{"ref-done", "run-returned"}, MaxPaths: 24, MaxConc: 3, MaxQueries: 3000, MaxSteps: 80_000_000, Note: sk.Note}
 }
 
@@ -163,6 +163,115 @@ func init() {
 	builders["C09"] = specC09
 	builders["C10"] = specC10
 	builders["C12"] = specC12
+	builders["C06"] = specC06
+	builders["C08"] = specC08
+}
+
+func isSame(kind, label string) bool { return strings.HasPrefix(label, "same:") }
+
+func c08Job(l *Loaded, cfg Config, sk Skeleton, mode string, extra map[string]string, tag string) *Job {
+	j := machineJob(l, cfg, sk, budgetK)
+	j.Fn = "VerifC08"
+	j.Key = mode + tag + "|" + j.Key
+	j.Params["mode"] = mode
+	for _, k := range []string{"policy1", "policy2"} {
+		j.Params[k] = "0"
+	}
+	j.Params["variant2"] = cfg.Variant
+	for k, v := range extra {
+		j.Params[k] = v
+	}
+	j.Covers = []string{"end"}
+	return j
+}
+
+func specC08(l *Loaded, tier string, seed int64) (*Spec, error) {
+	var jobs []*Job
+	cfgs := configs(tier, "6.0")
+	nS := 6
+	if tier == "thorough" {
+		nS = 24
+	}
+	var sks []Skeleton
+	sks = append(sks, sample(familyDeps(2, false), nS, 0)...)
+	sks = append(sks, sample(familyShadows(false), nS, 0)...)
+	sks = append(sks, sample(familyTails(), nS/2, 0)...)
+	sks = append(sks, familyGeneral()[:6]...)
+	md := familyMemDeps(2, false)
+	sks = append(sks, md[len(md)-2]) // a store/load chain whose termination depends on map order on MVP-6.0
+	sks = append(sks, Skeleton{ID: "c08:two-writers", Prog: asm("add t2, t0, t1", "add t2, t1, t1", "add t3, t2, t0", "sw t3, 64(zero)", "lw t4, 128(zero)", "add a3, t4, zero", "ret")},
+		Skeleton{ID: "c08:four-bytes-miss", Prog: asm("sw t0, 8(zero)", "sw t1, 72(zero)", "sw t2, 136(zero)", "lw t3, 200(zero)", "lw t4, 204(zero)", "add a3, t3, t4", "ret")})
+	// D1: map-iteration order: ascending vs descending / insertion / reverse insertion
+	pols := [][2]string{{"0", "1"}, {"0", "3"}}
+	if tier == "thorough" {
+		pols = append(pols, [2]string{"0", "2"}, [2]string{"1", "2"})
+	}
+	for _, sk := range sks {
+		for _, cfg := range cfgs {
+			for _, p := range pols {
+				jobs = append(jobs, c08Job(l, cfg, sk, "order", map[string]string{"policy1": p[0], "policy2": p[1]}, p[0]+p[1]))
+			}
+		}
+	}
+	// D2: history independence on every variant
+	all := configs(tier, "")
+	for _, sk := range sks[:len(sks)/2] {
+		for _, cfg := range all {
+			jobs = append(jobs, c08Job(l, cfg, sk, "repeat", nil, ""))
+		}
+	}
+	// D3: a parsed program reused on a second machine
+	reuse := [][2]Config{{{"6.1", 2, 2}, {"1", 1, 1}}, {{"6.1", 2, 2}, {"4", 1, 1}}, {{"6.3", 2, 2}, {"6.0", 2, 2}}, {{"7.1", 2, 0}, {"6.1", 2, 2}}, {{"8", 2, 0}, {"5", 1, 1}}, {{"6.1", 2, 2}, {"6.1", 2, 2}}, {{"8", 2, 0}, {"8", 2, 0}}}
+	for _, sk := range sks {
+		for _, r := range reuse {
+			jobs = append(jobs, c08Job(l, r[0], sk, "reuse", map[string]string{"variant2": r[1].Variant}, "-then-mvp"+r[1].Variant))
+		}
+	}
+	return machineSpec(l, jobs, isSame, "relational runs on one symbolic input that must agree on cycles, every register and every memory word: (D1) the same machine under two Go-map iteration-order policies of the executor, (D2) two fresh machines back to back with every written package-level variable holding an arbitrary (symbolic) value, (D3) one parsed Application run on machine A and then on a fresh machine B versus B on a freshly parsed program",
+		map[string]interface{}{"configurations": cfgNames(cfgs), "skeletons": len(sks), "order_policy_pairs": pols, "reuse_pairs": len(reuse)}), nil
+}
+
+func isC06(kind, label string) bool {
+	if strings.HasPrefix(label, "c06:") {
+		return true
+	}
+	if kind == "panic" {
+		// protocol panics raised by the coherence code itself
+		for _, s := range []string{"cacheController", ".msi)", "comp.Sem", "msi."} {
+			if strings.Contains(label, s) {
+				return true
+			}
+		}
+	}
+	return false
+}
+
+func specC06(l *Loaded, tier string, seed int64) (*Spec, error) {
+	var cfgs []Config
+	for _, v := range []string{"7.0", "7.1", "8"} {
+		for cores := 1; cores <= 4; cores++ {
+			if tier != "thorough" && (cores == 1 || cores == 4) && v != "8" {
+				continue
+			}
+			cfgs = append(cfgs, Config{v, cores, 0})
+		}
+	}
+	sks := familyMemDeps(2, tier == "thorough")
+	sks = append(sks, familyCacheShort()...)
+	sks = append(sks, Skeleton{ID: "gen:ld-alu-st", Prog: asm("lw t3, 8(zero)", "add t2, t0, t1", "sub t4, t2, t0", "sw t2, 128(zero)", "addi t6, t3, 1", "ret")},
+		Skeleton{ID: "c06:two-lines", Prog: asm("sw t0, 8(zero)", "sw t1, 72(zero)", "lw t3, 12(zero)", "lw t4, 76(zero)", "sw t3, 76(zero)", "sw t4, 12(zero)", "lw t5, 8(zero)", "lw t6, 72(zero)", "add a3, t5, t6", "ret")},
+		Skeleton{ID: "c06:ping-pong", Prog: asm("sw t0, 8(zero)", "lw t3, 8(zero)", "sw t1, 12(zero)", "lw t4, 12(zero)", "sw t3, 16(zero)", "lw t5, 16(zero)", "add a3, t4, t5", "ret")},
+		Skeleton{ID: "c06:shadow-store", Prog: asm("beq zero, zero, land", "sw t0, 8(zero)", "lw t3, 72(zero)", "land:", "lw t4, 8(zero)", "sw t1, 72(zero)", "add a3, t4, zero", "ret")})
+	if tier == "thorough" {
+		sks = append(sks, familyEviction(17, 64, "evict:17x64"), familyShadows(false)[0], familyShadows(false)[5], familyShadows(false)[20])
+	}
+	jobs := machineJobs(l, cfgs, sks)
+	for _, j := range jobs {
+		j.Params["c06"] = "1"
+		j.Covers = append(j.Covers, "c06:checked")
+	}
+	return machineSpec(l, jobs, isC06, "the MSI invariants are asserted at EVERY iteration of CPU.Run (verifHook of the instrumented cpu.go) on load/store skeletons with 1-4 cores: at most one Modified owner per line and then no Shared copy; a Shared L1 line is byte-identical (decided by the solver for all data) to the next level; L1 holds a line iff its protocol state is not Invalid unless a transfer for that (core,line) is in progress; no duplicate L1 line, aligned bases, full-size lines; lock counters never negative (protocol panics)",
+		map[string]interface{}{"configurations": cfgNames(cfgs), "skeletons": len(sks), "invariant_evaluations": "once per loop iteration of Run"}), nil
 }
 
 func cfgNames(cs []Config) []string {
@@ -173,9 +282,21 @@ func cfgNames(cs []Config) []string {
 	return out
 }
 
+// generalFor drops the query-heavy gen:loop-mem skeleton (wrongly forwarded, hence symbolic, addresses on MVP-6.x..8) from the quick tier.
+func generalFor(tier string) []Skeleton {
+	var out []Skeleton
+	for _, sk := range familyGeneral() {
+		if tier != "thorough" && sk.ID == "gen:loop-mem" {
+			continue
+		}
+		out = append(out, sk)
+	}
+	return out
+}
+
 func specC01(l *Loaded, tier string, seed int64) (*Spec, error) {
 	cfgs := configs(tier, "")
-	sks := familyGeneral()
+	sks := generalFor(tier)
 	nDep, nMem, nSh, nTail := 6, 6, 6, 4
 	if tier == "thorough" {
 		nDep, nMem, nSh, nTail = 60, 40, 40, 20
@@ -254,7 +375,7 @@ func specC10(l *Loaded, tier string, seed int64) (*Spec, error) {
 func specC07(l *Loaded, tier string, seed int64) (*Spec, error) {
 	cfgs := configs(tier, "")
 	sks := familyErrors()
-	sks = append(sks, familyGeneral()...)
+	sks = append(sks, generalFor(tier)...)
 	n := 10
 	if tier == "thorough" {
 		n = 80
@@ -270,7 +391,7 @@ func specC07(l *Loaded, tier string, seed int64) (*Spec, error) {
 
 func specC12(l *Loaded, tier string, seed int64) (*Spec, error) {
 	cfgs := configs(tier, "")
-	sks := familyGeneral()
+	sks := generalFor(tier)
 	n := 8
 	if tier == "thorough" {
 		n = 60
